@@ -87,6 +87,26 @@ def mutants(files):
                         ms.append({"file": f, "line": ln, "start": m.start(), "end": m.end(), "old": m.group(0), "new": r, "text": code.strip()[:160]})
     return ms
 
+def deletion_mutants(files):
+    """statement deletions: single-line assignments / compound assignments, and
+    `if cond { return...; }` early-return blocks (1 or 3 lines)"""
+    ms = []
+    for f in files:
+        path = os.path.join(REPO, f)
+        lines = open(path).read().split("\n")
+        in_test = False
+        for i, l in enumerate(lines):
+            t = l.strip()
+            if t.startswith("#[test]"):
+                in_test = True
+            if in_test:
+                continue
+            if re.match(r"^(self\.[\w\.\[\]\- ]+|\*?\w+(\[[^\]]+\])?) (\+|-|\*|/)?= [^=].*;$", t) and not t.startswith("let "):
+                ms.append({"file": f, "line": i, "start": 0, "end": len(l), "old": l, "new": "", "text": "DELETE: " + t[:140], "kind": "delete-line"})
+            if re.match(r"^if .*\{$", t) and i + 2 < len(lines) and lines[i + 1].strip().startswith("return") and lines[i + 2].strip() == "}":
+                ms.append({"file": f, "line": i, "start": 0, "end": len(l), "old": l, "new": "", "text": "DELETE BLOCK: " + t[:100] + " " + lines[i + 1].strip()[:40] + " }", "kind": "delete-block", "span": 3})
+    return ms
+
 def run(cmd, cwd, timeout=900):
     try:
         p = subprocess.run(cmd, cwd=cwd, shell=True, executable="/bin/bash", env=ENV, stdout=subprocess.PIPE, stderr=subprocess.STDOUT, text=True, timeout=timeout)
@@ -127,7 +147,11 @@ def evaluate(w, m):
     orig = open(os.path.join(REPO, m["file"])).read()
     lines = orig.split("\n")
     l = lines[m["line"]]
-    lines[m["line"]] = l[:m["start"]] + m["new"] + l[m["end"]:]
+    if m.get("kind") == "delete-block":
+        for k in range(m["span"]):
+            lines[m["line"] + k] = ""
+    else:
+        lines[m["line"]] = l[:m["start"]] + m["new"] + l[m["end"]:]
     open(path, "w").write("\n".join(lines))
     res = dict(m)
     try:
@@ -181,7 +205,7 @@ def main():
         out_dir = a[a.index("--out") + 1]
     if "--files" in a:
         files = a[a.index("--files") + 1].split(",")
-    ms = mutants(files)
+    ms = deletion_mutants(files) if "--deletions" in a else mutants(files)
     if "--only-survivors" in a:
         prev = json.load(open(f"{out_dir}/results.json"))
         keep = {(x["file"], x["line"], x["start"], x["new"]) for x in prev if x["status"] in ("SURVIVED", "TIMEOUT-OR-KILLED")}
